@@ -197,8 +197,18 @@ def _setattr(ip, x, name, v):
     ip.setattr(x, name, v)
 
 
+def _quant_seq(ip, xs, exists):
+    j = z3.Int("__qj")
+    el = z3.Select(xs.arrays[None], j)
+    b = ip.ctx.as_bool(el)
+    rng = z3.And(j >= 0, j < xs.length)
+    return z3.Exists([j], z3.And(rng, b)) if exists else z3.ForAll([j], z3.Implies(rng, b))
+
+
 @model("builtins.any")
 def _any(ip, xs):
+    if isinstance(xs, SSeq) and xs.fields is None:
+        return _quant_seq(ip, xs, True)
     for x in ip.iterate(xs):
         if ip.branch_on(x):
             return True
@@ -207,6 +217,8 @@ def _any(ip, xs):
 
 @model("builtins.all")
 def _all(ip, xs):
+    if isinstance(xs, SSeq) and xs.fields is None:
+        return _quant_seq(ip, xs, False)
     for x in ip.iterate(xs):
         if not ip.branch_on(x):
             return False
